@@ -20,6 +20,7 @@ import (
 	"os"
 	"os/exec"
 	"path/filepath"
+	"sort"
 	"strconv"
 	"strings"
 	"syscall"
@@ -40,6 +41,13 @@ type countingStore struct {
 	hg.Store
 	counter *int
 	killAt  int
+	profile *[]string // dry run only: kind of every write, in order
+}
+
+func (s *countingStore) note(kind string) {
+	if s.profile != nil {
+		*s.profile = append(*s.profile, kind)
+	}
 }
 
 func (s *countingStore) tick(after bool) {
@@ -55,30 +63,41 @@ func (s *countingStore) tick(after bool) {
 }
 
 func (s *countingStore) SetEvent(e *hg.Event) error {
+	if s.profile != nil {
+		if _, err := s.Store.GetEvent(e.Hex()); err == nil {
+			s.note("Eu") // update of a stored event (first-descendant walk, round assignment, ...)
+		} else {
+			s.note("En")
+		}
+	}
 	s.tick(false)
 	err := s.Store.SetEvent(e)
 	s.tick(true)
 	return err
 }
 func (s *countingStore) SetBlock(b *hg.Block) error {
+	s.note("B")
 	s.tick(false)
 	err := s.Store.SetBlock(b)
 	s.tick(true)
 	return err
 }
 func (s *countingStore) SetRound(r int, ri *hg.RoundInfo) error {
+	s.note("R")
 	s.tick(false)
 	err := s.Store.SetRound(r, ri)
 	s.tick(true)
 	return err
 }
 func (s *countingStore) SetFrame(f *hg.Frame) error {
+	s.note("F")
 	s.tick(false)
 	err := s.Store.SetFrame(f)
 	s.tick(true)
 	return err
 }
 func (s *countingStore) SetPeerSet(r int, ps *peers.PeerSet) error {
+	s.note("P")
 	s.tick(false)
 	err := s.Store.SetPeerSet(r, ps)
 	s.tick(true)
@@ -114,13 +133,17 @@ func runC11child(r *Result, thorough bool) {
 	rng := rand.New(rand.NewSource(r.Seed))
 	n, steps, withJoin := c11Params(r.Seed)
 	counter := 0
+	var profile *[]string
+	if killAt == 0 {
+		profile = &[]string{}
+	}
 	cl := &cluster{rng: rng, submitted: map[string]int{}, errs: map[string]int{}, cache: 200}
 	cl.mkStore = func(m *member) hg.Store {
 		st, err := hg.NewBadgerStore(200, filepath.Join(dir, fmt.Sprintf("m%d", m.idx)), false, nil)
 		if err != nil {
 			panic(err)
 		}
-		return &countingStore{Store: st, counter: &counter, killAt: killAt}
+		return &countingStore{Store: st, counter: &counter, killAt: killAt, profile: profile}
 	}
 	for i := 0; i < n; i++ {
 		m := newMember(rng, i)
@@ -174,6 +197,9 @@ func runC11child(r *Result, thorough bool) {
 		snapshot()
 	}
 	appendLine(filepath.Join(dir, "finished"), fmt.Sprint(counter))
+	if profile != nil {
+		os.WriteFile(filepath.Join(dir, "profile"), []byte(strings.Join(*profile, "\n")), 0644)
+	}
 	// clean shutdown
 	for _, m := range cl.members {
 		m.store.Close()
@@ -201,7 +227,7 @@ func runC11(r *Result, thorough bool) {
 		"non-trivial: crash point strictly inside the schedule with >=1 block delivered before it"
 	rng := rand.New(rand.NewSource(r.Seed))
 	schedules := 2
-	points := 6
+	points := 12
 	if thorough {
 		schedules = 4
 		points = 40
@@ -223,6 +249,22 @@ func runC11(r *Result, thorough bool) {
 			os.RemoveAll(dir)
 			continue
 		}
+		// kinds of the writes: boundaries between two consecutive updates of stored events lie inside
+		// one InsertEvent (the first-descendant walk writes one ancestor at a time)
+		inWalk := []int{}
+		if b, err := os.ReadFile(filepath.Join(dir, "profile")); err == nil {
+			kinds := strings.Split(string(b), "\n")
+			for j := 1; j < len(kinds); j++ { // boundary after write j (1-based)
+				if kinds[j-1] == "Eu" && kinds[j] == "Eu" {
+					k := j
+					if k%2 == 1 {
+						k = j + 1 // odd kill points fire before the write
+					}
+					inWalk = append(inWalk, k)
+				}
+			}
+		}
+		r.Inc("write_boundaries_inside_an_insertion", len(inWalk))
 		// the clean-shutdown case: recover from the dry run's databases
 		c11Recover(r, rng, dir, seed, -1, total)
 		os.RemoveAll(dir)
@@ -233,7 +275,12 @@ func runC11(r *Result, thorough bool) {
 			}
 		} else {
 			for i := 0; i < points; i++ {
-				ks = append(ks, 1+rng.Intn(total))
+				if i%2 == 0 && len(inWalk) > 0 {
+					ks = append(ks, inWalk[rng.Intn(len(inWalk))])
+					r.Inc("kill_points_inside_an_insertion", 1)
+				} else {
+					ks = append(ks, 1+rng.Intn(total))
+				}
 			}
 		}
 		for _, k := range ks {
@@ -359,6 +406,55 @@ func c11Recover(r *Result, rng *rand.Rand, dir string, seed int64, k, total int)
 		// (3) head restored: seq = last own index
 		if own, ok := m.core.KnownEvents()[m.peer.ID()]; ok && own != m.core.Seq() {
 			r.Violate("impl-violation", what("node %d: seq %d after bootstrap but its last own event has index %d (next self-event would fork or skip)", m.idx, m.core.Seq(), own), "head-not-restored", replay)
+		}
+	}
+	// (3b) the bootstrapped hashgraph is the one a fresh node computes from the same events in the
+	// same order: rounds, timestamps, round received and both coordinate tables of every event
+	for _, m := range recovered {
+		bs, ok := m.store.(*hg.BadgerStore)
+		if !ok {
+			continue
+		}
+		evs, err := bs.VerifDBTopologicalEvents(0, 1<<30)
+		if err != nil || len(evs) == 0 {
+			continue
+		}
+		fresh := &member{idx: m.idx, key: m.key, peer: m.peer, hex: m.hex, app: newApp(), store: hg.NewInmemStore(100000)}
+		gen := peers.NewPeerSet(append([]*peers.Peer{}, cl.genesis...))
+		fresh.core = newVerifCoreWith(fresh, cl.genesis, gen, fresh.app.commitCallback)
+		okReplay := true
+		for _, ev := range evs {
+			cp := &hg.Event{Body: ev.Body, Signature: ev.Signature}
+			if cls, _ := guarded(func() error { return fresh.core.Hashgraph().InsertEventAndRunConsensus(cp, true) }); cls != "ok" {
+				okReplay = false
+				break
+			}
+		}
+		if !okReplay {
+			r.Inc("fresh_replays_refused", 1)
+			continue
+		}
+		r.Inc("fresh_replays_compared", 1)
+		coords := func(c hg.CoordinatesMap) string {
+			ks := []string{}
+			for k, v := range c {
+				ks = append(ks, fmt.Sprintf("%s:%d", k[len(k)-6:], v.Index))
+			}
+			sort.Strings(ks)
+			return strings.Join(ks, ",")
+		}
+		for _, ev := range evs {
+			a, e1 := m.core.Hashgraph().Store.GetEvent(ev.Hex())
+			b, e2 := fresh.core.Hashgraph().Store.GetEvent(ev.Hex())
+			if e1 != nil || e2 != nil {
+				continue
+			}
+			da := fmt.Sprintf("round=%s lamport=%s rr=%s la=[%s] fd=[%s]", fo(a.VerifRound()), fo(a.VerifLamport()), fo(a.VerifRoundReceived()), coords(a.VerifLastAncestors()), coords(a.VerifFirstDescendants()))
+			db := fmt.Sprintf("round=%s lamport=%s rr=%s la=[%s] fd=[%s]", fo(b.VerifRound()), fo(b.VerifLamport()), fo(b.VerifRoundReceived()), coords(b.VerifLastAncestors()), coords(b.VerifFirstDescendants()))
+			if da != db {
+				r.Violate("impl-violation", what("node %d: after bootstrap event %d of creator %s differs from what a fresh node computes from the same events:\n bootstrap: %s\n fresh    : %s", m.idx, ev.Index(), ev.Creator()[len(ev.Creator())-6:], da, db), "bootstrap-differs-from-replay", replay)
+				break
+			}
 		}
 	}
 	// (4) continue: fair gossip among the recovered genesis members
